@@ -5,12 +5,6 @@ package tcp
 
 // Contracts for the deductive verifier in /verif (govc). Comment-only file.
 
-//@ func getBuffer
-//@   prop C05
-//@   modifies nothing
-//@   ensures @pooled-buffers-are-not-empty len(result) > 0
-//@   assume @ret len(result) > 0
-
 //@ func putBuffer
 //@   prop C05
 //@   modifies nothing
@@ -44,5 +38,10 @@ package tcp
 
 //@ func (*tcpProc).HandleConn$3
 //@   prop C05
-//@   requires done != nil && !closed(done)
-//@   callpre pipeConn @client-to-backend ifaceloc(arg1) == cconn && arg2 == sconn
+//@   requires deref(done) != nil && !closed(deref(done))
+//@   callpre pipeConn @client-to-backend ifaceloc(arg1) == deref(cconn) && arg2 == deref(sconn)
+
+//@ func (*tcpProc).dial
+//@   prop C05 C06
+//@   modifies all
+//@   ensures @connection-or-error result1 == nil ==> result0 != nil
